@@ -4,9 +4,9 @@
 ID=$1; N=$2; S=/tmp/seed_out/$ID/$N; WT=/tmp/wt/v-$ID-$N
 rm -rf $WT; /verif/tools/mkworktree.sh $WT >/dev/null || exit 9
 cd $WT
-/venv/bin/python $S/demo.py > $S/demo_clean.log 2>&1; DC=$?
+PYTHONPATH=$WT /venv/bin/python $S/demo.py > $S/demo_clean.log 2>&1; DC=$?
 git apply $S/patch.diff; AP=$?
-/venv/bin/python $S/demo.py > $S/demo_patched.log 2>&1; DP=$?
+PYTHONPATH=$WT /venv/bin/python $S/demo.py > $S/demo_patched.log 2>&1; DP=$?
 /venv/bin/python -m pytest -ra -q -p no:cacheprovider --timeout=900 --continue-on-collection-errors --junitxml=$S/junit.xml > $S/suite.log 2>&1
 /venv/bin/python - "$S" "$DC" "$AP" "$DP" <<'PY'
 import sys, json, xml.etree.ElementTree as ET
